@@ -87,20 +87,28 @@ def check_props(pid, timeout=900):
 
 # properties whose theorems are stated about Mech/Intg.v: on every run the kernels are re-translated from the
 # source of the tree under test (harness/translate.py) and proved equal to the model (Tie/IntgTie.v)
-TIED = {"C01": ["tie_intg_rk", "tie_intg_expl_euler", "tie_discrete_system"],
-        "C03": ["tie_intg_rk", "tie_intg_expl_euler", "tie_discrete_system", "tie_builtin"],
-        "C05": ["tie_intg_rk", "tie_intg_expl_euler", "tie_discrete_system"],
-        "C08": ["tie_intg_rk", "tie_intg_expl_euler"]}
+INTG = ["tie_intg_rk", "tie_intg_expl_euler", "tie_discrete_system"]
+DC = ["tie_dc_dt", "tie_dc_t_root", "tie_dc_Pidot", "tie_dc_sys_args", "tie_dc_quad", "tie_dc_x_next", "tie_dc_cont_lhs"]
+TIED = {"C01": {"Intg": INTG},
+        "C02": {"Dc": DC},
+        "C03": {"Intg": INTG + ["tie_builtin"], "Dc": DC},
+        "C05": {"Intg": INTG, "Dc": ["tie_dc_dt", "tie_dc_t_root", "tie_dc_sys_args", "tie_dc_quad"]},
+        "C08": {"Intg": ["tie_intg_rk", "tie_intg_expl_euler"]}}
+TIE_SRC = {"Intg": "rockit/sampling_method.py", "Dc": "rockit/direct_collocation.py"}
 
 
 def check_ties(pid):
+    """{which: result} for the source ties of this property"""
     if pid not in TIED:
         return None
     from .translate import check_tie
-    try:
-        return check_tie(REPO)
-    except Exception as e:
-        return {"ok": False, "stage": "tie machinery failed", "log": "%s: %s" % (type(e).__name__, e), "lemmas": [], "assumptions": {}}
+    out = {}
+    for which in TIED[pid]:
+        try:
+            out[which] = check_tie(REPO, which)
+        except Exception as e:
+            out[which] = {"ok": False, "stage": "tie machinery failed", "log": "%s: %s" % (type(e).__name__, e), "lemmas": [], "assumptions": {}}
+    return out
 
 
 def coqchk(pid, timeout=1800):
@@ -208,10 +216,11 @@ def main(argv=None):
     if ok and not pr["ok"]:
         obligations_broken.append({"what": "Props/%s.v no longer checks" % pid, "log": pr["log"]})
     tie = check_ties(pid) if ok else None
-    if tie is not None and not tie["ok"]:
-        obligations_broken.append({"what": "the kernels translated from rockit/sampling_method.py are no longer proved equal to "
-                                           "the model Mech/Intg.v (%s; lemmas %s of Tie/IntgTie.v)" % (tie["stage"], ", ".join(TIED[pid])),
-                                   "log": tie["log"]})
+    for which, t in (tie or {}).items():
+        if not t["ok"]:
+            obligations_broken.append({"what": "the kernels translated from %s are no longer proved equal to the model (%s; lemmas %s of Tie/%sTie.v)"
+                                               % (TIE_SRC[which], t["stage"], ", ".join(TIED[pid][which]), which),
+                                       "log": t["log"]})
     chk = None
     if tier == "thorough" and ok and pr["ok"]:
         cok, clog = coqchk(pid)
@@ -260,12 +269,13 @@ def main(argv=None):
 
     # 6. evidence
     nthm = len(pr["theorems"])
-    ntie = len(TIED.get(pid, []))
+    ntie = sum(len(v) for v in TIED.get(pid, {}).values())
+    ntie_ok = sum(len(TIED[pid][w]) for w, t in (tie or {}).items() if t["ok"])
     ev = {
         "property_id": pid, "tier": tier, "seed": seed, "level": "proof",
         "coverage": {
             "obligations": max(nthm, 1) + ntie,
-            "discharged": (nthm if (ok and pr["ok"]) else 0) + (ntie if (tie is not None and tie["ok"]) else 0),
+            "discharged": (nthm if (ok and pr["ok"]) else 0) + ntie_ok,
             "checker_cmd": "cd /verif/coq && make && coqc -Q . RV Props/%s.v%s" % (
                 pid, " && coqchk -o -Q . RV RV.Props.%s" % pid if tier == "thorough" else ""),
             "trusted_base": mod.TRUSTED + [
@@ -282,9 +292,11 @@ def main(argv=None):
             "distribution": res.get("distribution", {}),
             "lint_files": nfiles, "lint_hits": len(hits),
             "coqchk": chk,
-            "source_tie": ({"translator": "harness/translate.py (Python ast -> Gallina, fail-closed)", "generated": "work/gen_*/Gen/IntgGen.v",
-                            "tie_file": "coq/Tie/IntgTie.v", "ok": tie["ok"], "stage": tie["stage"], "lemmas": TIED[pid],
-                            "assumptions": tie.get("assumptions", {}), "generated_sha": tie.get("generated_sha")} if tie is not None else None),
+            "source_tie": ({which: {"translator": "harness/translate.py (Python ast -> Gallina, fail-closed)", "source": TIE_SRC[which],
+                                    "generated": "work/gen_*/Gen/%sGen.v" % which, "tie_file": "coq/Tie/%sTie.v" % which,
+                                    "ok": t["ok"], "stage": t["stage"], "lemmas": TIED[pid][which],
+                                    "assumptions": t.get("assumptions", {}), "generated_sha": t.get("generated_sha")}
+                            for which, t in tie.items()} if tie is not None else None),
             "known_findings_seen": sorted(seen_known.keys()),
             "extra": res.get("extra", {}),
         },
